@@ -37,6 +37,9 @@ type LaplaceDistribution struct {
 /* -------------------------------------------------------------------------- */
 
 func NewLaplaceDistribution(mu, sigma Scalar) (*LaplaceDistribution, error) {
+  if sigma.GetFloat64() <= 0.0 {
+    return nil, fmt.Errorf("invalid value for parameter sigma: %f", sigma.GetFloat64())
+  }
 
   result := LaplaceDistribution{}
   result.Mu    = mu   .CloneScalar()
